@@ -653,4 +653,4 @@ PROPS["C20"]["rule"] += " A fourth part (capacity-concurrent): 2-8 clients add 1
 PROPS["C17"]["rule"] += " A fourth part (wipe-under-load): 1-3 requests that run a script which sleeps 2-20 ms and then writes a fact, 0-3 clients that write three facts each, and one DeleteLocation or ClearLocation issued 0-6 ms into the burst, all on one location (TTL forever, 1 h or 1 ms; schedule noise); a write that started after the wipe had returned - also one made by a script whose request began before the wipe - must be acknowledged, readable by its writer at once and still there at the end; non-trivial = at least one such write."
 PROPS["C20"]["rule"] += " A fifth part (http-breaker) drives the breaker where rulio uses it, in core.HTTPRequest.Do: a breaker (limit 1..5 per minute) registered for a host, 1-3 bursts of 2-16 concurrent requests to that host through an in-process transport that counts what goes out (no network); at most `limit` requests go out, exactly min(total, limit) do, the others are answered 430; non-trivial = more requests than the limit."
 PROPS["C15"]["rule"] += " One schedule in eight of the sys.System part lies wholly in the past (1 January 2001 on the virtual clock): the rule is refused (and then nothing changes - a rule of that id that was there keeps running) or it exists and never runs."
-PROPS["C12"]["rule"] += " Facts carry a second property with one of two values, and `searchKind` requests search for one of them (a search by value meets what overwritten facts left in the term index)."
+PROPS["C12"]["rule"] += " Facts carry a second property with one of two names, and `searchKind` requests search for one of them (such a search meets what overwritten and removed facts left behind in the term index)."
